@@ -5,6 +5,7 @@ import numpy as np
 
 from .common import *  # noqa: F401,F403
 from .common import (Check, OracleFailure, SymEnv, sym_pixels, pixels_from_inputs, scratch_file, symcooler, known_active)
+from engine.symcore import SReal
 from .model import (concrete_bins, build_cooler_sym, build_cooler_real, read_pixels_sym, read_pixels_real, validity_sym, validity_real,
                     sym_bins, bins_frame, real_widths)
 
@@ -37,9 +38,14 @@ def merge_sym(p):
     for i, K in enumerate(Ks):
         b1, b2, v = sym_pixels(n, K, upper, prefix=f"t{i}_")
         w = [sym_int(f"t{i}_w{q}", 1, 9) for q in range(K)]
+        wdt = "int64"
+        if p.get("mixed") and i == len(Ks) - 1:
+            # the last input stores w as float64 with half-integer values: the output column must be wide enough for every input
+            w = [SReal.of(x) / 2 for x in w]
+            wdt = "float64"
         cols = {"count": v, "w": w}
         tables.append((b1, b2, cols))
-        uris.append(build_cooler_sym(scratch_file(f"c07_{i}.cool"), bins, b1, b2, cols, upper, dtypes={"w": "int64"}))
+        uris.append(build_cooler_sym(scratch_file(f"c07_{i}.cool"), bins, b1, b2, cols, upper, dtypes={"w": wdt}))
     buf = sym_int("mergebuf", 1, sum(Ks) + 1)
     out = scratch_file("c07_out.cool")
     agg = {"w": how} if how != "sum" else None
@@ -78,8 +84,12 @@ def merge_real(p, inputs):
     for i, K in enumerate(Ks):
         b1, b2, v = pixels_from_inputs(inputs, K, prefix=f"t{i}_")
         w = [inputs[f"t{i}_w{q}"] for q in range(K)]
+        wdt = "int64"
+        if p.get("mixed") and i == len(Ks) - 1:
+            w = [x / 2 for x in w]
+            wdt = "float64"
         tables.append((b1, b2, v, w))
-        uris.append(build_cooler_real(scratch_file(f"c07_{i}.cool"), bins, b1, b2, {"count": v, "w": w}, upper, dtypes={"w": "int64"}))
+        uris.append(build_cooler_real(scratch_file(f"c07_{i}.cool"), bins, b1, b2, {"count": v, "w": w}, upper, dtypes={"w": wdt}))
     out = scratch_file("c07_out.cool")
     cooler.merge_coolers(out, uris, mergebuf=inputs["mergebuf"], columns=["count", "w"], agg={"w": how} if how != "sum" else None)
     validity_real(out)
@@ -111,6 +121,9 @@ def _merge_cases(tier):
                 if how == "max" and (len(Ks) > 2 or not upper):
                     continue
                 out.append(dict(layout=list(layout), kind=kind, Ks=list(Ks), upper=upper, agg=how))
+    # inputs whose value column has different dtypes (int64 then float64, and the reverse order)
+    out.append(dict(layout=[2], kind="fixed", Ks=[1, 1], upper=True, agg="sum", mixed=True))
+    out.append(dict(layout=[2], kind="fixed", Ks=[1, 1, 1], upper=True, agg="sum", mixed=True))
     return out
 
 
@@ -167,9 +180,9 @@ def compat_sym(p):
     symh5.reset()
     sc = symcooler()
     layout = p["layout"]
-    binsA, wA = sym_bins(layout, p["wmax"], prefix="a")
-    binsB, wB = sym_bins(layout, p["wmax"], prefix="b")
-    same = and_(*[x == y for ws, vs in zip(wA, wB) for x, y in zip(ws, vs)])
+    binsA, wA = sym_bins(layout, p["wmax"], prefix="a", shape=p.get("shape", "any"), b=p.get("b"))
+    binsB, wB = sym_bins(layout, p["wmax"], prefix="b", shape=p.get("shape", "any"), b=p.get("b"), names=p.get("namesB"))
+    same = and_(*[x == y for ws, vs in zip(wA, wB) for x, y in zip(ws, vs)]) if not p.get("namesB") else False
     upA = p["upperA"]
     upB = p["upperB"]
     uA = build_cooler_sym(scratch_file("c07c_a.cool"), binsA, [], [], {"count": []}, upA)
@@ -179,7 +192,7 @@ def compat_sym(p):
     cover("tables_equal", same)
     try:
         sc.merge_coolers(scratch_file("c07c_out.cool"), [uA, uB], mergebuf=10)
-    except ValueError as e:
+    except (ValueError, TypeError) as e:   # any refusal counts; pandas refuses differently labelled categoricals with TypeError
         if "No objects to concatenate" in str(e):
             # all-empty inputs reach the concat of an empty epoch (finding F14); compatibility was accepted
             prove(and_(same, upA == upB), "inputs with different bin tables or storage modes were accepted for merging")
@@ -194,14 +207,15 @@ def compat_real(p, inputs):
     import cooler
     import pandas as pd
     layout = p["layout"]
-    wA, wB = real_widths(inputs, layout, prefix="a"), real_widths(inputs, layout, prefix="b")
-    binsA, binsB = bins_frame(layout, wA, pd), bins_frame(layout, wB, pd)
-    same = wA == wB and p["upperA"] == p["upperB"]
+    wA = real_widths(inputs, layout, p.get("shape", "any"), p.get("b"), prefix="a")
+    wB = real_widths(inputs, layout, p.get("shape", "any"), p.get("b"), prefix="b")
+    binsA, binsB = bins_frame(layout, wA, pd), bins_frame(layout, wB, pd, p.get("namesB"))
+    same = wA == wB and p["upperA"] == p["upperB"] and not p.get("namesB")
     uA = build_cooler_real(scratch_file("c07c_a.cool"), binsA, [], [], {"count": []}, p["upperA"])
     uB = build_cooler_real(scratch_file("c07c_b.cool"), binsB, [], [], {"count": []}, p["upperB"])
     try:
         cooler.merge_coolers(scratch_file("c07c_out.cool"), [uA, uB], mergebuf=10)
-    except ValueError as e:
+    except (ValueError, TypeError) as e:
         if "No objects to concatenate" in str(e):
             if not same:
                 raise OracleFailure("inputs with different bin tables or storage modes were accepted for merging")
@@ -220,6 +234,10 @@ def _compat_cases(tier):
     for lay in lays:
         out.append(dict(layout=list(lay), wmax=3, upperA=True, upperB=True))
     out.append(dict(layout=[2], wmax=2, upperA=True, upperB=False))
+    # same lengths and bin size, different / swapped chromosome names (fixed-width and variable tables)
+    out.append(dict(layout=[2, 2], wmax=2, shape="fixed", b=2, upperA=True, upperB=True, namesB=["c1", "c0"]))
+    out.append(dict(layout=[2, 1], wmax=2, shape="fixed", b=2, upperA=True, upperB=True, namesB=["c0", "zz"]))
+    out.append(dict(layout=[1, 2], wmax=2, upperA=True, upperB=True, namesB=["c1", "c0"]))
     return out
 
 
